@@ -1247,14 +1247,16 @@ impl ManageConnection for ServerPool {
     /// Synchronously determine if the connection is no longer usable, if possible.
     fn has_broken(&self, conn: &mut Self::Connection) -> bool {
         // A connection that is still inside a transaction, in COPY mode, has an unread reply
-        // pending or carries session state that was not reset was dropped without
-        // `checkin_cleanup` (an early return or a panic in the client task): it must not be
-        // handed to the next client.
+        // pending, carries session state that was not reset or lists prepared statements
+        // the server never confirmed was dropped without `checkin_cleanup` or in the middle
+        // of a batch (an early return or a panic in the client task): it must not be handed
+        // to the next client.
         conn.is_bad()
             || conn.in_transaction()
             || conn.in_copy_mode()
             || conn.is_data_available()
             || conn.needs_cleanup()
+            || conn.has_pending_registrations()
     }
 }
 
